@@ -99,6 +99,7 @@ type Exec struct {
 	retN   int
 	safeN  int
 	coverN int
+	skipped int // obligations not generated because of an `only` clause
 	results []*types.Var
 	inputs []ModelVar
 	notes  []string // inexact ops etc.
@@ -204,6 +205,18 @@ func (ex *Exec) skolemGoal(t *Term) *Term {
 
 func (ex *Exec) oblige(st *State, kind, name string, goal *Term, src string) *Obligation {
 	goal = ex.skolemGoal(goal)
+	if ex.fc != nil && len(ex.fc.Only) > 0 && kind != "cover" {
+		keep := false
+		for _, p := range ex.fc.Only {
+			if strings.HasPrefix(name, p) || (strings.HasPrefix(p, "*") && strings.HasSuffix(name, p[1:])) {
+				keep = true
+			}
+		}
+		if !keep {
+			ex.skipped++
+			return &Obligation{Name: ex.fi.Key + "#" + name, Kind: kind, Func: ex.fi.Key, Guard: st.guard, Goal: goal, ex: ex}
+		}
+	}
 	o := &Obligation{Name: ex.fi.Key + "#" + name, Kind: kind, Func: ex.fi.Key, Guard: st.guard, Goal: goal, NDecl: len(ex.decls), Unfold: ex.unfoldDepth(), Src: src, ex: ex, Inputs: ex.inputs}
 	if ex.fc != nil {
 		o.Props = ex.fc.Props
@@ -1628,8 +1641,20 @@ func (ex *Exec) assignedVars(n ast.Node) []types.Object {
 				}
 				return
 			case *ast.SelectorExpr:
+				if t := ex.info.TypeOf(x.X); t != nil {
+					if _, isPtr := t.Underlying().(*types.Pointer); isPtr || ex.w.isRefStruct(t) {
+						return // a store through a pointer / into an object: the variable itself is not assigned
+					}
+				}
 				e = x.X
 			case *ast.IndexExpr:
+				if t := ex.info.TypeOf(x.X); t != nil {
+					if _, isSlice := t.Underlying().(*types.Slice); isSlice {
+						if id, ok := x.X.(*ast.Ident); !ok || id == nil {
+							return
+						}
+					}
+				}
 				e = x.X
 			case *ast.StarExpr:
 				e = x.X
